@@ -6,6 +6,8 @@ package main
 import (
 	"context"
 	"fmt"
+	"net/http"
+	"net/url"
 	"os"
 	"sort"
 	"strings"
@@ -197,8 +199,12 @@ type optSet struct {
 	gzip     func()
 	timeout  func(time.Duration)
 	retry    func(retryCfg)
+	proxy    func(proxyFunc) // HTTP exporters only: the transport's proxy hook (used to inject transport faults)
 	build    func() (driven, error)
 }
+
+// proxyFunc is the shape of the exporters' HTTPTransportProxyFunc.
+type proxyFunc = func(*http.Request) (*url.URL, error)
 
 func optsFor(kind string, id int) (*optSet, error) {
 	ctx := context.Background()
@@ -211,6 +217,7 @@ func optsFor(kind string, id int) (*optSet, error) {
 			headers:  func(h map[string]string) { o = append(o, otlptracehttp.WithHeaders(h)) },
 			gzip:     func() { o = append(o, otlptracehttp.WithCompression(otlptracehttp.GzipCompression)) },
 			timeout:  func(d time.Duration) { o = append(o, otlptracehttp.WithTimeout(d)) },
+			proxy:    func(f proxyFunc) { o = append(o, otlptracehttp.WithProxy(f)) },
 			retry: func(rc retryCfg) {
 				o = append(o, otlptracehttp.WithRetry(otlptracehttp.RetryConfig{Enabled: rc.Enabled, InitialInterval: rc.Initial, MaxInterval: rc.MaxInt, MaxElapsedTime: rc.MaxEl}))
 			},
@@ -249,6 +256,7 @@ func optsFor(kind string, id int) (*optSet, error) {
 			headers:  func(h map[string]string) { o = append(o, otlpmetrichttp.WithHeaders(h)) },
 			gzip:     func() { o = append(o, otlpmetrichttp.WithCompression(otlpmetrichttp.GzipCompression)) },
 			timeout:  func(d time.Duration) { o = append(o, otlpmetrichttp.WithTimeout(d)) },
+			proxy:    func(f proxyFunc) { o = append(o, otlpmetrichttp.WithProxy(f)) },
 			retry: func(rc retryCfg) {
 				o = append(o, otlpmetrichttp.WithRetry(otlpmetrichttp.RetryConfig{Enabled: rc.Enabled, InitialInterval: rc.Initial, MaxInterval: rc.MaxInt, MaxElapsedTime: rc.MaxEl}))
 			},
@@ -287,6 +295,7 @@ func optsFor(kind string, id int) (*optSet, error) {
 			headers:  func(h map[string]string) { o = append(o, otlploghttp.WithHeaders(h)) },
 			gzip:     func() { o = append(o, otlploghttp.WithCompression(otlploghttp.GzipCompression)) },
 			timeout:  func(d time.Duration) { o = append(o, otlploghttp.WithTimeout(d)) },
+			proxy:    func(f proxyFunc) { o = append(o, otlploghttp.WithProxy(f)) },
 			retry: func(rc retryCfg) {
 				o = append(o, otlploghttp.WithRetry(otlploghttp.RetryConfig{Enabled: rc.Enabled, InitialInterval: rc.Initial, MaxInterval: rc.MaxInt, MaxElapsedTime: rc.MaxEl}))
 			},
@@ -326,12 +335,15 @@ var envKeys = []string{"OTEL_EXPORTER_OTLP_ENDPOINT", "OTEL_EXPORTER_OTLP_HEADER
 // newDriven builds the real exporter `kind` pointed at addr (the scenario's own loopback listener) with the
 // option set x; timeout 0 = the exporter's default. With x.Env everything except the retry configuration (which
 // has no environment variable) is configured through OTEL_EXPORTER_OTLP_*.
-func newDriven(kind string, id int, addr string, x XCfg, hdr map[string]string, timeout time.Duration, rc retryCfg) (driven, error) {
+func newDriven(kind string, id int, addr string, x XCfg, hdr map[string]string, timeout time.Duration, rc retryCfg, pf proxyFunc) (driven, error) {
 	o, err := optsFor(kind, id)
 	if err != nil {
 		return nil, err
 	}
 	o.retry(rc)
+	if pf != nil && o.proxy != nil {
+		o.proxy(pf)
+	}
 	// every construction reads the process environment, so all of them are serialised: an exporter configured by
 	// options must not see the variables of a concurrent environment-configured scenario
 	envMu.Lock()
